@@ -14,6 +14,7 @@ package c11
 
 import (
 	"fmt"
+	"github.com/whatap/golib/util/dateutil"
 	"os"
 	"strconv"
 	"strings"
@@ -163,6 +164,27 @@ type SOp struct {
 	K string `json:"k"`           // put | force | get | nowait | timed | clear | cap | size
 	A int    `json:"a,omitempty"` // timed: timeout in ms; cap: new capacity (queue 1)
 	B int    `json:"b,omitempty"` // cap on the double queue: new capacity of queue 2
+	J int    `json:"j,omitempty"` // timed: the agent's server-time offset (dateutil.SetDelta) changes by J ms while the get is waiting
+}
+
+// withJump runs call; when op.J != 0 the server-time offset is changed by J ms a fifth of the timeout into the call
+// (a time sync with the collector arriving meanwhile) and restored afterwards. Timeouts are measured in elapsed time,
+// whatever the agent currently believes the server's clock shows.
+func withJump(op SOp, call func()) {
+	if op.J == 0 {
+		call()
+		return
+	}
+	old := dateutil.GetDelta()
+	done := make(chan struct{})
+	go func() {
+		defer close(done)
+		time.Sleep(time.Duration(op.A) * time.Millisecond / 5)
+		dateutil.SetDelta(old + int64(op.J))
+	}()
+	call()
+	<-done
+	dateutil.SetDelta(old)
 }
 
 type SeqCase struct {
@@ -199,7 +221,7 @@ func drawSOp(t *rapid.T) SOp {
 	case r < 75:
 		return SOp{K: "get"}
 	case r < 82:
-		return SOp{K: "timed", A: drawTimeout(t)}
+		return SOp{K: "timed", A: drawTimeout(t), J: rapid.SampledFrom([]int{0, 0, 0, 3600000, 60000, 50, -3}).Draw(t, "jump")}
 	case r < 85:
 		return SOp{K: "clear"}
 	case r < 93:
@@ -324,10 +346,13 @@ func seqSingle(c SeqCase, announce func(string)) *pbt.Result {
 				cl["blocking-get"] = true
 			case op.K == "timed":
 				t0 := clockNow()
-				got = q.GetTimeout(op.A)
+				withJump(op, func() { got = q.GetTimeout(op.A) })
 				t1 := clockNow()
 				if !have {
 					cl["timed-get-empty"] = true
+					if op.J != 0 {
+						cl["timed-get-empty-during-server-time-change"] = true
+					}
 					if got == nil {
 						if early, how := tooEarly(t0, t1, op.A); early {
 							return pbt.Fail("%s: GetTimeout(%d) came back empty-handed before the timeout elapsed: %s", at, op.A, how)
@@ -405,7 +430,7 @@ func keys(m map[string]bool) []string {
 
 var specSeqSingle = pbt.Register(pbt.Spec[SeqCase]{
 	Prop: "C11", Name: "seq-single",
-	Rule:  "rapid-generated histories of 1-60 operations (put, put-force, blocking get only when non-empty, get-no-wait, get-timeout 1-30 ms, clear, set-capacity incl. 0/negative/below current size, size) on one RequestQueue with recording Failed/Overflowed callbacks (each sometimes left nil), compared step by step with a slice+capacity model; non-trivial = history with at least one refused put or one eviction; distinct by operation sequence",
+	Rule:  "rapid-generated histories of 1-60 operations (put, put-force, blocking get only when non-empty, get-no-wait, get-timeout 1-30 ms (in three of seven cases the server-time offset of dateutil changes by -3 ms .. +1 h while the get waits; the timeout is elapsed time), clear, set-capacity incl. 0/negative/below current size, size) on one RequestQueue with recording Failed/Overflowed callbacks (each sometimes left nil), compared step by step with a slice+capacity model; non-trivial = history with at least one refused put or one eviction; distinct by operation sequence",
 	Quick: 8000, Thorough: 400000,
 	Draw: func(t *rapid.T) SeqCase {
 		return SeqCase{
@@ -496,7 +521,7 @@ func drawDOp(t *rapid.T) SOp {
 	case r < 75:
 		return SOp{K: "get"}
 	case r < 82:
-		return SOp{K: "timed", A: drawTimeout(t)}
+		return SOp{K: "timed", A: drawTimeout(t), J: rapid.SampledFrom([]int{0, 0, 0, 3600000, 60000, 50, -3}).Draw(t, "jump")}
 	case r < 85:
 		return SOp{K: "clear"}
 	case r < 93:
@@ -573,10 +598,13 @@ func seqDouble(c DSeqCase, announce func(string)) *pbt.Result {
 				cl["blocking-get"] = true
 			case op.K == "timed":
 				t0 := clockNow()
-				got = q.GetTimeout(op.A)
+				withJump(op, func() { got = q.GetTimeout(op.A) })
 				t1 := clockNow()
 				if !have {
 					cl["timed-get-empty"] = true
+					if op.J != 0 {
+						cl["timed-get-empty-during-server-time-change"] = true
+					}
 					if got == nil {
 						if early, how := tooEarly(t0, t1, op.A); early {
 							return pbt.Fail("%s: GetTimeout(%d) came back empty-handed before the timeout elapsed: %s", at, op.A, how)
@@ -635,7 +663,7 @@ func seqDouble(c DSeqCase, announce func(string)) *pbt.Result {
 
 var specSeqDouble = pbt.Register(pbt.Spec[DSeqCase]{
 	Prop: "C11", Name: "seq-double",
-	Rule:  "rapid-generated histories of 1-60 operations (put1/2, put-force1/2, blocking get only when non-empty, get-no-wait, get-timeout 1-30 ms, clear, set-capacity, size) on one RequestDoubleQueue compared step by step with a two-slice model that serves queue 1 first; refusal/eviction observed through return values, Size1/Size2 and content (the callbacks are unexported); non-trivial = history with at least one refused put or one eviction; distinct by operation sequence",
+	Rule:  "rapid-generated histories of 1-60 operations (put1/2, put-force1/2, blocking get only when non-empty, get-no-wait, get-timeout 1-30 ms (in three of seven cases the server-time offset of dateutil changes by -3 ms .. +1 h while the get waits; the timeout is elapsed time), clear, set-capacity, size) on one RequestDoubleQueue compared step by step with a two-slice model that serves queue 1 first; refusal/eviction observed through return values, Size1/Size2 and content (the callbacks are unexported); non-trivial = history with at least one refused put or one eviction; distinct by operation sequence",
 	Quick: 6000, Thorough: 300000,
 	Draw: func(t *rapid.T) DSeqCase {
 		return DSeqCase{
